@@ -127,6 +127,29 @@ pub fn configs(prop: Prop, thorough: bool) -> Vec<(E1Cfg, Vec<Bound>)> {
                 }
                 v.push((c, if thorough { bt.clone() } else { bq.clone() }));
             }
+            // (1b) the frame is never sent at all (stalled TX task) / the response is rejected after
+            // the receive side claimed the slot: the request must still end with a timeout after
+            // its deadlines, and the slot must come back
+            for (name, retry, b) in [
+                ("c06-txdead-none", Retry::None, &b22),
+                ("c06-txdead-count2", Retry::Count(2), &b22),
+            ] {
+                let mut c = E1Cfg::base(prop, name, 1, vec![vec![r4.clone()]]);
+                c.clock = true;
+                c.retry = retry;
+                c.tx_dead = true;
+                v.push((c, b.clone()));
+            }
+            for (name, retry, b) in [
+                ("c06-oversize-response-none", Retry::None, &b21),
+                ("c06-oversize-response-count1", Retry::Count(1), &b21),
+            ] {
+                let mut c = E1Cfg::base(prop, name, 1, vec![vec![r4.clone()]]);
+                c.clock = true;
+                c.retry = retry;
+                c.oversize = true;
+                v.push((c, b.clone()));
+            }
             // (2) loss as a choice + competitor for the same slot + abandonment
             let mut c = E1Cfg::base(prop, "c06-2app-N1-loss-clock", 1, vec![vec![r4.clone()], vec![w3.clone()]]);
             c.clock = true;
@@ -258,7 +281,62 @@ pub fn c06(tier: &Tier) -> Result<i32, String> {
 }
 
 /// Rebuild a harness from its label (for `vx replay`).
+/// C03's E1 part: the slot states that exist only while the transmit or receive side is inside one
+/// call (`Sending`, `RxBusy`) are invisible to E2's atomic operations; these harnesses let a request
+/// expire or be dropped at every scheduling point and keep only the capacity clause ("every slot is
+/// allocatable again once all handles are gone"). Release while the transmit side is inside the
+/// buffer is C06's window, as C03's quantifier says.
+pub struct CapacityOnly(pub E1Harness);
+
+impl Harness for CapacityOnly {
+    fn name(&self) -> String {
+        self.0.name()
+    }
+    fn run(&self, ctx: &mut crate::core::Ctx) -> crate::core::RunResult {
+        let mut r = self.0.run(ctx);
+        r.violations.retain(|v| v.signature.contains("slot-lost") && !v.signature.starts_with("window=released-while-Tx"));
+        r
+    }
+    fn params(&self) -> serde_json::Value {
+        json!({"engine": "e1", "label": self.0.cfg.label, "prop": "C03 (capacity clause of the C06 harness)"})
+    }
+}
+
+pub fn c03_harnesses(thorough: bool) -> Vec<(CapacityOnly, Vec<Bound>)> {
+    let r4 = Req::Read { len: 4 };
+    let w3 = Req::Write { len: 3 };
+    let b22 = vec![Bound::new(0, 0), Bound::new(1, 1), Bound::new(2, 2)];
+    let b21 = vec![Bound::new(0, 0), Bound::new(1, 1), Bound::new(2, 1)];
+    let t1 = vec![Bound::total(0), Bound::total(1)];
+    let t2 = vec![Bound::total(0), Bound::total(1), Bound::total(2)];
+    let mut v = Vec::new();
+    let mut c = E1Cfg::base(Prop::C06, "c03-e1-1app-N1-abandon", 1, vec![vec![r4.clone()]]);
+    c.clock = true;
+    c.abandon = true;
+    v.push((CapacityOnly(E1Harness { cfg: c }), b22.clone()));
+    let mut c = E1Cfg::base(Prop::C06, "c03-e1-1app-N1-expire-count1", 1, vec![vec![r4.clone()]]);
+    c.clock = true;
+    c.retry = Retry::Count(1);
+    v.push((CapacityOnly(E1Harness { cfg: c }), if thorough { b22.clone() } else { b21.clone() }));
+    let mut c = E1Cfg::base(Prop::C06, "c03-e1-1app-N1-expire-none-dup", 1, vec![vec![r4.clone()]]);
+    c.clock = true;
+    c.duplicates = true;
+    v.push((CapacityOnly(E1Harness { cfg: c }), b21.clone()));
+    let mut c = E1Cfg::base(Prop::C06, "c03-e1-2app-N1-abandon", 1, vec![vec![r4.clone()], vec![w3.clone()]]);
+    c.clock = true;
+    c.abandon = true;
+    v.push((CapacityOnly(E1Harness { cfg: c }), if thorough { t2.clone() } else { t1.clone() }));
+    let mut c = E1Cfg::base(Prop::C06, "c03-e1-2app-N2-abandon", 2, vec![vec![r4.clone()], vec![w3.clone()]]);
+    c.clock = true;
+    c.abandon = true;
+    v.push((CapacityOnly(E1Harness { cfg: c }), if thorough { t2 } else { t1 }));
+    v
+}
+
 pub fn harness_by_label(label: &str) -> Option<Box<dyn Harness>> {
+    if label.starts_with("c03-e1-") {
+        return c03_harnesses(true).into_iter().find(|(h, _)| h.name() == label).map(|(h, _)| Box::new(h) as Box<dyn Harness>);
+    }
     for prop in [Prop::C01, Prop::C02, Prop::C06] {
         for (cfg, _) in configs(prop, true) {
             if cfg.label == label {
